@@ -280,5 +280,25 @@ def run(ctx, eng):
                got == cat,
                '%s is translated to %s (error_code %s); RFC 7540 requires '
                '%s' % (caught, found, got, cat), node=f3.node)
+    # ---- frames after END_STREAM: STREAM_CLOSED, from the extracted machine
+    fsm = eng.fsm
+    from ..spec.rfc7540_stream import feedable
+    order, _ = fsm.reachable(feedable)
+    ended = [s for s in order if s.st == 'CLOSED' and
+             s.cb in ('SEND_END_STREAM', 'RECV_END_STREAM')]
+    ctx.record('ended_states', len(ended))
+    ctx.floor('ended_states', 2)
+    for inp in ('RECV_HEADERS', 'RECV_INFORMATIONAL_HEADERS', 'RECV_DATA'):
+        bad = []
+        for s in ended:
+            r = fsm.step_impl(s, inp)
+            if r[0] != 'closed':
+                bad.append('%s (%s)' % (r[0], r[3]))
+        cell = fsm.stream.cells.get(('CLOSED', inp))
+        ctx.ob('FSM.after-end', 'stream', 'CLOSED|%s' % inp, not bad,
+               'on a stream that ended normally %s must raise '
+               'StreamClosedError (GOAWAY STREAM_CLOSED), found %s' % (
+                   inp, sorted(set(bad)) or 'StreamClosedError'),
+               node=cell[2] if cell else fsm.stream.node)
     ctx.assume('hyperframe\'s own classification of malformed frames is '
                'trusted')
